@@ -3,7 +3,7 @@
 From Coq Require Import ZArith List.
 Import ListNotations.
 From Mds Require Import Stree.StreeModel Stree.HeightModel Stree.HeightLimit Stree.HeightBasics
-  Stree.HeightRewrite Stree.HeightProofs Stree.HeightTie Gen.StreeHeightConst.
+  Stree.HeightRewrite Stree.HeightProofs Stree.HeightCapped Stree.HeightTie Gen.StreeHeightConst.
 Local Open Scope Z_scope.
 
 (* (c) The exact depth limit (largest k with 2000^k <= n*(1000+b)^k, which is what limitFunc
@@ -92,3 +92,24 @@ Proof.
   intros lim. exact (conj (add_insert_limit_plain lim) (conj (replace_insert_limit_plain lim) insert_calls)).
 Qed.
 Print Assumptions C02_tie_add_limit.
+
+(* "consequently a lookup never needs more than that many comparisons plus one": in every tree
+   of every history the number c of comparator calls of Tree.Get satisfies c - 1 <= bound + 1,
+   i.e.  c <= 2  or  2000^(c-2) <= P*(1000+b)^(c-2). *)
+Theorem C02_lookup : forall (T : Type) (cmp : T -> T -> Z) (limit : Z -> Z -> Z),
+  limit_H1 limit -> limit_H2 limit ->
+  forall ops : list (op T),
+  Forall2 (fun t P => 0 <= beta t < 1000 -> forall k,
+             let c := snd (get_count cmp k (root t)) in
+             c <= 2 \/ 2000 ^ (c - 2) <= P * (1000 + beta t) ^ (c - 2))
+          (fst (run_with_peak cmp limit ops)) (snd (run_with_peak cmp limit ops)).
+Proof. exact @history_lookup. Qed.
+Print Assumptions C02_lookup.
+
+(* The capped limit the replay driver computes and the exact limit drive the tree identically:
+   same outputs, same states (shapes included), for every comparator and every history. *)
+Theorem C02_capped_same : forall (T : Type) (cmp : T -> T -> Z) (ops : list (op T)),
+  run cmp limit_capped ops = run cmp limit_exact ops /\
+  exec_from cmp limit_capped [] ops = exec_from cmp limit_exact [] ops.
+Proof. exact capped_same_histories. Qed.
+Print Assumptions C02_capped_same.
